@@ -511,3 +511,11 @@ def uninstall():
     while _SAVED:
         d, k, v = _SAVED.pop()
         d[k] = v
+
+
+def set_global_seed(expr):
+    """(re)start the process-global generator of the current path from the given seed term"""
+    c = core.ctx()
+    GLOBAL_RNG._path = c
+    GLOBAL_RNG._g = SymRandomState(expr)
+    return GLOBAL_RNG._g
